@@ -304,6 +304,41 @@ def run_reassign(case):
                      f"{case['graphs'][0] if first is not None else None}): {kind}: {d}") for kind, d in r]
             break
     return bad
+
+
+def run_wire_orders(case):
+    """one router OBJECT called on a sequence of circuits that use the same physical qubits
+    in DIFFERENT wire orders (what any placer produces) and with different content; with
+    case['reassign'] the same graph object is assigned to `router.connectivity` again before
+    every later call (what Passes.__call__ does).  Every call gets the full check, with the
+    edges of the graph read through the wire names of THAT call."""
+    G = build_graph(case["edges"], case["nodes"])
+    G0 = G.copy()
+    router = make_router(case["router"], G, case.get("opts", {}))
+    bad = []
+    for k, call in enumerate(case["calls"]):
+        if k > 0 and case.get("reassign"):
+            router.connectivity = G
+        c = build_circuit(case["n"], call["wire_names"], call["gates"])
+        before = snapshot(c)
+        try:
+            with time_limit(20):
+                routed, layout = router(c)
+        except Exception as e:
+            kind = raise_kind(e, c.queue)
+            if kind == "raises:KeyError":      # the known split defect: not a reuse problem
+                break
+            bad.append(("reuse:wire-order", f"call {k+1} (wires {call['wire_names']}): {type(e).__name__}: {e}"))
+            break
+        r = check_routing(c, G0, routed, layout, case.get("exact", True), before)
+        if r:
+            bad += [("reuse:wire-order", f"call {k+1} of one router object, wires {call['wire_names']} (first call: wires "
+                     f"{case['calls'][0]['wire_names']}): {kind}: {d}") for kind, d in r]
+            break
+        if set(G.nodes) != set(G0.nodes) or set(map(frozenset, G.edges)) != set(map(frozenset, G0.edges)):
+            bad.append(("reuse:wire-order", "the connectivity graph passed by the caller was modified"))
+            break
+    return bad
 '''
 
 SPEC = {}
@@ -1082,6 +1117,122 @@ def reassign_suite(ctx):
     ctx.ob("C09_search_reassigned", nbad == 0, "search", f"{nbad} failing cases" if nbad else "")
 
 
+def wire_order_suite(ctx):
+    """one router object, 2-4 calls, every call with another permutation of the node labels
+    as wire_names and another circuit content; all three routers; with and without
+    re-assigning the same graph object to `router.connectivity` between the calls."""
+    rng = ctx.rng
+    th = ctx.thorough
+    run = SPEC["run_wire_orders"]
+    atlas = [g for g in atlas_graphs(5) if g.number_of_nodes() >= 3]
+    extra = [nx.path_graph(5), nx.path_graph(6), nx.cycle_graph(6), nx.star_graph(5), nx.grid_2d_graph(2, 3)]
+    extra = [nx.convert_node_labels_to_integers(g) for g in extra]
+    nbad = 0
+    reported = set()
+
+    def sequence(router, G, style, reassign, ncalls):
+        n = G.number_of_nodes()
+        if style == "str":
+            names = list(rng.choice([["q%d" % i for i in range(n)], ["A", "b", "C3", "d_", "E", "f", "G", "h9"][:n]]))
+        else:
+            names = list(range(n))
+        if style != "id":
+            rng.shuffle(names)
+        lab = {v: names[i] for i, v in enumerate(sorted(G.nodes))}
+        edges = [(lab[a], lab[b]) for a, b in G.edges]
+        rng.shuffle(edges)
+        mode = rng.choice(["int", "int", "float"])
+        calls = []
+        prev = None
+        for k in range(ncalls):
+            wires = list(names)
+            if not (k == 0 and style == "id"):
+                for _ in range(5):
+                    rng.shuffle(wires)
+                    if wires != prev:
+                        break
+            prev = list(wires)
+            calls.append({"wire_names": wires,
+                          "gates": random_recipe(rng, n, rng.choice([0, 2, 5, 9, 14, 20]), mode, rng.choice(["none", "trailing", "mid"]))})
+        opts = sabre_opts(rng) if router == "Sabre" else ({"seed": rng.randrange(1000)} if router == "ShortestPaths" else {})
+        return {"router": router, "n": n, "nodes": list(names), "edges": edges, "opts": opts, "calls": calls,
+                "reassign": reassign, "exact": mode != "float"}
+
+    def report(case, bad):
+        nonlocal nbad
+        nbad += 1
+        key = f"{case['router']}:reuse:wire-order"
+        if key in reported:
+            return
+        reported.add(key)
+        cur = case
+        import time as _time
+        t_end = _time.time() + 40
+        try:
+            # fewer calls: keep the first call and the failing one
+            kfail = next((k for k in range(1, len(cur["calls"])) if run(dict(cur, calls=[cur["calls"][0], cur["calls"][k]]))), None)
+            if kfail is not None:
+                cur = dict(cur, calls=[cur["calls"][0], cur["calls"][kfail]])
+            for k in range(len(cur["calls"])):
+                gl = list(cur["calls"][k]["gates"])
+                i = len(gl) - 1
+                while i >= 0 and _time.time() < t_end:
+                    trial = gl[:i] + gl[i + 1:]
+                    calls = list(cur["calls"])
+                    calls[k] = dict(calls[k], gates=trial)
+                    t = dict(cur, calls=calls)
+                    if run(t):
+                        gl, cur = trial, t
+                    i -= 1
+            bad = run(cur) or bad
+        except Exception:
+            cur = case
+        code = (SPEC_SRC + "\ncase = " + repr(cur) + "\nbad = run_wire_orders(case)\nprint(bad)\nassert not bad, bad\n")
+        ctx.fail(key, f"{case['router']} object reused with another wire order on graph {cur['edges']}"
+                      f"{' (connectivity re-assigned to the same graph object between calls)' if cur.get('reassign') else ''}: {bad[0][1]}",
+                 code, expected="every call satisfies C09 for its own wire_names", observed=[list(b) for b in bad][:3],
+                 broken=["C09_search_reuse_wire_order"])
+
+    # directed: 5 wires A..E on a line, second call uses another order (string, int, permuted int labels)
+    directed = []
+    for router in ("ShortestPaths", "Sabre"):
+        for names in (["A", "B", "C", "D", "E"], [0, 1, 2, 3, 4], [3, 0, 4, 1, 2]):
+            for reassign in (False, True):
+                edges = [(names[i], names[i + 1]) for i in range(4)]
+                gl = ["gates.CNOT(0,1)", "gates.CNOT(1,2)", "gates.CNOT(2,3)", "gates.CNOT(3,4)", "gates.CNOT(4,0)",
+                      "gates.Unitary(np.array([[1,1],[0,1]]), 2, check_unitary=False)", "gates.M(0,3, register_name='a')"]
+                w2 = [names[i] for i in (2, 0, 3, 1, 4)]
+                w3 = [names[i] for i in (4, 3, 2, 1, 0)]
+                directed.append({"router": router, "n": 5, "nodes": list(names), "edges": edges,
+                                 "opts": {"seed": 4}, "reassign": reassign, "exact": True,
+                                 "calls": [{"wire_names": list(names), "gates": gl}, {"wire_names": w2, "gates": gl},
+                                           {"wire_names": w3, "gates": gl[:3]}]})
+    for names in (["A", "B", "C", "D", "E"], [0, 1, 2, 3, 4]):
+        edges = [(names[0], names[i]) for i in range(1, 5)]
+        gl = ["gates.CZ(1,2)", "gates.CNOT(3,4)", "gates.CNOT(0,2)", "gates.M(1,4, register_name='a')"]
+        directed.append({"router": "StarConnectivityRouter", "n": 5, "nodes": list(names), "edges": edges, "opts": {},
+                         "reassign": False, "exact": True,
+                         "calls": [{"wire_names": list(names), "gates": gl},
+                                   {"wire_names": [names[i] for i in (3, 1, 0, 4, 2)], "gates": gl}]})
+    for case in directed:
+        ctx.case(("wire-order-directed", case["router"], repr(case["nodes"]), case["reassign"]))
+        ctx.stat("wire_order_sequences")
+        bad = run(case)
+        if bad:
+            report(case, bad)
+    for r in range(150 if th else 36):
+        router = ["ShortestPaths", "Sabre", "StarConnectivityRouter"][r % 3]
+        G = nx.star_graph(4) if router == "StarConnectivityRouter" else rng.choice(atlas + extra)
+        case = sequence(router, G, ["perm", "str", "id"][(r // 3) % 3], reassign=(r // 9) % 2 == 1, ncalls=rng.randint(2, 4))
+        ctx.case(("wire-order", router, tuple(case["edges"]), tuple(tuple(c["wire_names"]) for c in case["calls"])))
+        ctx.stat("wire_order_sequences")
+        ctx.stat("wire_order_calls", len(case["calls"]))
+        bad = run(case)
+        if bad:
+            report(case, bad)
+    ctx.ob("C09_search_reuse_wire_order", nbad == 0, "search", f"{nbad} failing sequences" if nbad else "")
+
+
 def samples_suite(ctx):
     """execute input and routed circuit (monomial gates: deterministic outcomes) and compare
     the reported frequencies per register."""
@@ -1470,6 +1621,7 @@ def run(ctx):
     blocks_model_suite(ctx, st)
     process_driver(ctx, st)
     reassign_suite(ctx)
+    wire_order_suite(ctx)
     samples_suite(ctx)
     asserts_suite(ctx)
     # failing inputs on the real code
